@@ -232,6 +232,23 @@ func TestC17(t *testing.T) {
 		}
 	})
 
+	// a decoy body, then >= 256 further bytes, then each plain terminator form: a scanner with a separate
+	// path for long remainders must still stop at the FIRST terminator
+	for k, hc := range h5Constructs {
+		k := k
+		terms := []string{">", "%>", "]]>", "-->", "-!>", "--!>", "'", "\"", "`"}
+		p = c.rec.NewPart("term_long_tail_"+hc.name, "every body of length 0..4 over the decoy alphabet + 300 filler bytes + each terminator form + tail", false, true, "")
+		alpha := hc.alpha
+		c.EnumSeq(p, alpha, "", 0, 4, func(w *Worker, s string) {
+			for _, tm := range terms {
+				w.Judge(ev.Case{Kind: "term", N: k, In: s + strings.Repeat("a", 300) + tm + "b<i>"})
+			}
+		})
+	}
+	hb := htmlBoundaryInputs()
+	p = c.rec.NewPart("inv_boundary_inputs", "invariants on the length-, count- and code-point boundary inputs (see C07), incl. inputs beyond 4 MB", false, true, "")
+	c.ParRange(p, int64(len(hb)), func(w *Worker, i int64) { w.Judge(ev.Case{Kind: "inv", In: hb[i]}) })
+
 	p = c.rec.NewPart("rapid_term_long_bodies", "rapid: construct x body of fragments (up to ~150 bytes) x text prefix", true, false, "")
 	g := gen.HTMLInput()
 	c.Rapid(p, 8, pick(60000, 700000), func(rt *rapid.T, sh int) ev.Case {
